@@ -491,10 +491,10 @@ func c17RestoreWith(c *fw.Ctx, id string, src []byte, ov map[string]string) {
 		}
 		c17Edit(df)
 		var b1 bytes.Buffer
-		err = decorator.NewRestorerWithImports("example.com/self", &failingPkgResolver{inner: guess.New(), failAt: K}).Fprint(&b1, df)
+		err = c17Restorer(&failingPkgResolver{inner: guess.New(), failAt: K}, ov).Fprint(&b1, df)
 		c17Verdict(c, cid, "restore", err, false, b1.Len(), string(src))
 		var b2 bytes.Buffer
-		if err := decorator.NewRestorerWithImports("example.com/self", guess.New()).Fprint(&b2, df); err != nil || b2.String() != ref {
+		if err := c17Restorer(guess.New(), ov).Fprint(&b2, df); err != nil || b2.String() != ref {
 			c.Violate("retry-differs", "retry-differs:combined", fmt.Sprintf("%s: err=%v equal=%v", cid, err, b2.String() == ref), string(src))
 		}
 		c.Nontrivial(cid)
